@@ -5,6 +5,7 @@ package main
 import (
 	"fmt"
 	"go/token"
+	"sort"
 	"strings"
 
 	"golang.org/x/tools/go/ssa"
@@ -31,6 +32,7 @@ func (c *Ctx) borrow(run func(*Ctx), match func(o *Obligation) bool) int {
 // after testing them to be zero.
 func c03Extras3(c *Ctx) {
 	w := c.W
+	nullBytesRule(c, "z/x509")
 	if fn := w.Fn("z/x509.ParseRevocationList"); fn != nil {
 		c.Sites++
 		c.Cut(CutSpec{Rule: "R-CUT", Fn: fn, Label: "a revocation list is returned only if the outer signatureAlgorithm equals the signed one octet for octet (bytes.Equal)", Target: SuccessReturn(1, nil),
@@ -310,4 +312,143 @@ func constantInt64(k *ssa.Const) (int64, bool) {
 	var v int64
 	_, err := fmt.Sscan(s, &v)
 	return v, err == nil
+}
+
+// andLeavesOf: the operands of a conjunction built with & (through conversions).
+func andLeavesOf(v ssa.Value, out *[]ssa.Value, depth int) {
+	if depth > 16 {
+		return
+	}
+	v = stripConv(v)
+	if b, ok := v.(*ssa.BinOp); ok && b.Op == token.AND {
+		andLeavesOf(b.X, out, depth+1)
+		andLeavesOf(b.Y, out, depth+1)
+		return
+	}
+	*out = append(*out, v)
+}
+
+// c23Extras3: (a) SignPSS uses one hash value throughout (the one merged with opts.Hash) for the salt length, the
+// digest-length check and the encoding; (b) DecryptPKCS1v15SessionKey overwrites the caller's key only if the
+// decrypted message has exactly the key's length.
+func c23Extras3(c *Ctx) {
+	w := c.W
+	if fn := w.Fn("z/rsa.SignPSS"); fn != nil {
+		uses := map[ssa.Value][]string{}
+		for _, b := range fn.Blocks {
+			for _, in := range b.Instrs {
+				cc := callCommon(in)
+				if cc == nil {
+					continue
+				}
+				ops := append([]ssa.Value{}, cc.Args...)
+				if cc.IsInvoke() {
+					ops = append(ops, cc.Value)
+				}
+				for _, a := range ops {
+					if typeStr(a.Type()) == "crypto.Hash" {
+						uses[a] = append(uses[a], calleeName(cc)+" at "+w.InstrPos(in))
+					}
+				}
+			}
+		}
+		c.Sites++
+		var desc []string
+		for v, u := range uses {
+			desc = append(desc, Expr(v)+" -> "+strings.Join(u, ", "))
+		}
+		sort.Strings(desc)
+		c.Check(len(uses) == 1, "R-PROV", "rsa.SignPSS", "salt length, digest check and encoding all use the same hash value (the argument merged with opts.Hash)", w.Pos(fn.Pos()), strings.Join(desc, " ; "))
+	} else {
+		c.Undecided("R-PROV", "rsa.SignPSS", "anchor", "-", "not found")
+	}
+	if fn := w.Fn("z/rsa.DecryptPKCS1v15SessionKey"); fn != nil {
+		n := 0
+		for _, in := range callsIn(fn, "crypto/subtle.ConstantTimeCopy") {
+			cc := callCommon(in)
+			if cc == nil || len(cc.Args) != 3 {
+				continue
+			}
+			n++
+			c.Sites++
+			var leaves []ssa.Value
+			andLeavesOf(cc.Args[0], &leaves, 0)
+			ok := false
+			var got []string
+			for _, l := range leaves {
+				got = append(got, Expr(l))
+				cl := callOf(l)
+				if cl == nil || calleeName(&cl.Call) != "crypto/subtle.ConstantTimeEq" || len(cl.Call.Args) != 2 {
+					continue
+				}
+				a, b := Expr(stripConv(cl.Call.Args[0])), Expr(stripConv(cl.Call.Args[1]))
+				if (strings.HasPrefix(a, "(len(") && strings.Contains(a, "-") && b == "len(key)") || (strings.HasPrefix(b, "(len(") && strings.Contains(b, "-") && a == "len(key)") {
+					ok = true
+				}
+			}
+			c.Check(ok, "R-VSET", "rsa.DecryptPKCS1v15SessionKey", "the key is overwritten only if ConstantTimeEq(len(em)-index, len(key)) holds (a longer message leaves it untouched)", w.InstrPos(in), strings.Join(got, " & "))
+		}
+		c.Check(n == 1, "R-VSET", "rsa.DecryptPKCS1v15SessionKey", "ConstantTimeCopy into the key found", w.Pos(fn.Pos()), fmt.Sprint(n))
+	}
+}
+
+// bigIntCopyRule: a math/big.Int is never copied by assignment (*dst = *src shares the word slice; later arithmetic
+// on one rewrites the other); expected count zero, the selftest fixture keeps a positive example.
+func bigIntCopyRule(c *Ctx, files ...string) {
+	w := c.W
+	nfn := 0
+	for _, f := range files {
+		for _, fn := range w.FuncsInFile(f) {
+			nfn++
+			for i, st := range bigIntCopies(fn) {
+				c.Fail("R-ALIAS", short(FuncName(fn)), fmt.Sprintf("no big.Int is copied by struct assignment (#%d)", i+1), w.InstrPos(st), "use (*big.Int).Set")
+			}
+		}
+	}
+	c.Sites++
+	c.Check(nfn > 0, "R-ALIAS", strings.Join(files, ","), "functions searched for big.Int struct copies", "-", fmt.Sprintf("%d functions", nfn))
+}
+
+func bigIntCopies(fn *ssa.Function) []ssa.Instruction {
+	var out []ssa.Instruction
+	for _, b := range fn.Blocks {
+		for _, in := range b.Instrs {
+			st, ok := in.(*ssa.Store)
+			if !ok || typeStr(st.Val.Type()) != "math/big.Int" && typeStr(st.Val.Type()) != "big.Int" {
+				continue
+			}
+			if u, ok := st.Val.(*ssa.UnOp); ok && u.Op == token.MUL {
+				out = append(out, in)
+			}
+		}
+	}
+	return out
+}
+
+// nullBytesRule (R-UNITS): asn1.NullBytes is the complete TLV 05 00, so it is only ever compared with the complete
+// encoding of a value (RawValue.FullBytes), never with its content octets (RawValue.Bytes): a NULL's content is empty
+// and would never equal it, which silently turns "parameters absent or NULL" into "parameters absent".
+func nullBytesRule(c *Ctx, pkgs ...string) {
+	w := c.W
+	n := 0
+	for _, pk := range pkgs {
+		for _, fn := range w.FuncsOfPkg(pk) {
+			for _, in := range callsIn(fn, "bytes.Equal") {
+				cc := callCommon(in)
+				if cc == nil || len(cc.Args) != 2 {
+					continue
+				}
+				for i, a := range cc.Args {
+					if !strings.HasSuffix(Expr(a), "asn1.NullBytes") && !strings.HasSuffix(Expr(a), "asn1.NullBytes[:]") {
+						continue
+					}
+					other := Expr(cc.Args[1-i])
+					n++
+					c.Sites++
+					c.Check(strings.HasSuffix(other, ".FullBytes"), "R-UNITS", short(FuncName(fn)), fmt.Sprintf("NullBytes (a whole TLV) is compared with a whole encoding: %s", other), w.InstrPos(in), "compared with "+other)
+				}
+			}
+		}
+	}
+	c.Check(n >= 4, "R-UNITS", strings.Join(pkgs, ","), "comparisons with asn1.NullBytes found", "-", fmt.Sprint(n))
 }
